@@ -841,7 +841,9 @@ def check_valid_at(run: Run, prog: Program) -> None:  # noqa: C901
                 # the raw storage is read only for a slot that is established not to lie in a gap: slots skipped by a jump
                 # ahead are recorded in the gap list but keep the value evicted from them
                 if kind == "index":
-                    cands = [f"{buf}.is_missing({buf}.get_timestamp({u(k)}))"]
+                    # get_timestamp() yields a slot-grid timestamp; normalising it again changes nothing
+                    cands = [f"{buf}.is_missing({buf}.get_timestamp({u(k)}))",
+                             f"{buf}.is_missing({buf}.normalize_timestamp({buf}.get_timestamp({u(k)})))"]
                 else:
                     cands = [f"{buf}.is_missing({u(k)})", f"{buf}.is_missing({buf}.normalize_timestamp({u(k)}))"]
                 no_gap = any(truth(p, c) is False for c in cands)
